@@ -331,6 +331,45 @@ __CPROVER_requires(__CPROVER_is_fresh(aio, sizeof(*aio)))
 __CPROVER_assigns(aio->a_expire, aio->a_use_expire)
 __CPROVER_ensures(aio->a_expire == when && aio->a_use_expire)
 ;
+/* nng_aio_abort / nng_aio_cancel (C02): the cancel slot is a single-winner token.  The provider's cancel
+ * function (vp_cancel of this module: records its arguments, leaves the aio alone -- a provider that no longer
+ * owns the operation) runs at most once, only if the slot was occupied, with the lock released, its own argument
+ * and exactly the code the user gave (NNG_ECANCELED for nng_aio_cancel); nothing is completed by the call itself
+ * and the result a finished operation reported is left alone.  With an empty slot the code is latched for the
+ * next start.  A sleeping aio is completed once by the real nni_sleep_cancel iff its sleep token is still there. */
+#define NGA_ABORT_CONTRACT(CODE)                                                                           \
+__CPROVER_requires(AIO_PRE(aio) && VP_NO_LOCK_HELD)                                                        \
+__CPROVER_assigns(AIO_FINISH_FIELDS(aio), aio->a_abort, AIO_ABORT_CODE(aio))                               \
+__CPROVER_assigns(aio->a_skipped_callback != NULL: *aio->a_skipped_callback)                               \
+__CPROVER_assigns(AIO_TASK_GHOSTS, AIO_CANCEL_GHOSTS, g_exp_on, VP_SYNC_GHOSTS)                            \
+__CPROVER_ensures(VP_NO_LOCK_HELD && aio->a_cancel_fn == NULL && aio->a_cancel_arg == NULL && !g_exp_on)   \
+__CPROVER_ensures(__CPROVER_old(aio->a_cancel_fn) == vp_cancel ==> (g_cancel_calls == __CPROVER_old(g_cancel_calls) + 1 && g_cancel_aio == aio && g_cancel_arg == __CPROVER_old(aio->a_cancel_arg) && g_cancel_rv == (int) (CODE))) \
+__CPROVER_ensures(__CPROVER_old(aio->a_cancel_fn) != vp_cancel ==> g_cancel_calls == __CPROVER_old(g_cancel_calls)) \
+__CPROVER_ensures((__CPROVER_old(aio->a_cancel_fn) == nni_sleep_cancel && __CPROVER_old(aio->a_sleep)) ==> (aio->a_result == (CODE) && !aio->a_sleep && AIO_ONE_ASYNC_COMPLETION(aio, __CPROVER_old(aio->a_skipped_callback), __CPROVER_old(g_dispatched), __CPROVER_old(g_exec)))) \
+__CPROVER_ensures(!(__CPROVER_old(aio->a_cancel_fn) == nni_sleep_cancel && __CPROVER_old(aio->a_sleep)) ==> (AIO_NO_COMPLETION(__CPROVER_old(g_dispatched), __CPROVER_old(g_exec)) && aio->a_result == __CPROVER_old(aio->a_result) && aio->a_count == __CPROVER_old(aio->a_count))) \
+__CPROVER_ensures(__CPROVER_old(aio->a_cancel_fn) == NULL ==> (aio->a_abort && AIO_ABORT_CODE(aio) == (CODE))) \
+__CPROVER_ensures(__CPROVER_old(aio->a_cancel_fn) != NULL ==> aio->a_abort == __CPROVER_old(aio->a_abort)) \
+__CPROVER_ensures(g_prep == __CPROVER_old(g_prep) && AIO_INV_POST(aio))
+
+void nng_aio_abort(nng_aio *aio, nng_err err_code)
+NGA_ABORT_CONTRACT(err_code);
+void nng_aio_cancel(nng_aio *aio)
+NGA_ABORT_CONTRACT(NNG_ECANCELED);
+
+/* nng_aio_finish (provider API, C02): exactly one completion (skip flag set, or one dispatch) with the code given;
+ * the count the provider accumulated (nng_aio_set_count... / iov progress) is preserved, the message is left alone,
+ * the cancel slot is emptied and the aio leaves the expire list under the lock */
+void nng_aio_finish(nng_aio *aio, nng_err rv)
+__CPROVER_requires(AIO_PRE0(aio))
+__CPROVER_assigns(AIO_FINISH_FIELDS(aio), AIO_TASK_GHOSTS, g_exp_on, VP_SYNC_GHOSTS)
+__CPROVER_assigns(aio->a_skipped_callback != NULL: *aio->a_skipped_callback)
+__CPROVER_ensures(VP_NO_LOCK_HELD && aio->a_cancel_fn == NULL && aio->a_cancel_arg == NULL && !g_exp_on && !aio->a_sleep && aio->a_skipped_callback == NULL)
+__CPROVER_ensures(aio->a_result == rv && aio->a_count == __CPROVER_old(aio->a_count) && aio->a_msg == __CPROVER_old(aio->a_msg) && AIO_INV_POST(aio))
+__CPROVER_ensures(__CPROVER_old(aio->a_skipped_callback) != NULL ==> (*__CPROVER_old(aio->a_skipped_callback) && AIO_NO_COMPLETION(__CPROVER_old(g_dispatched), __CPROVER_old(g_exec))))
+__CPROVER_ensures(__CPROVER_old(aio->a_skipped_callback) == NULL ==> (g_dispatched == __CPROVER_old(g_dispatched) + 1 && g_exec == __CPROVER_old(g_exec)))
+__CPROVER_ensures(g_prep == __CPROVER_old(g_prep))
+;
+
 /* nng_aio_start (provider API, C02): every operation offered through the public wrapper starts CLEAN.
  * A cancel that lost the race with the completion of the PREVIOUS operation left its code latched
  * (a_abort); the wrapper discards it (nni_aio_reset) before nni_aio_start looks at the latch, so
